@@ -239,9 +239,6 @@ class _InstallWrapper(IpcCommand):
 
     def __init__(self, *args, **kwargs):
         super().__init__(*args, **kwargs)
-        self.parser.set_defaults(
-            insoptions=self.insoptions_default, diroptions=self.diroptions_default
-        )
 
         # initialize file/dir creation coroutines
         self.install = self._install().send
@@ -250,6 +247,11 @@ class _InstallWrapper(IpcCommand):
         self.install_from_dirs = self._install_from_dirs().send
 
     def parse_args(self, *args, **kwargs):
+        # the option parser is shared by all install helpers, so this helper's
+        # defaults have to be in place whenever it parses a request
+        self.parser.set_defaults(
+            insoptions=self.insoptions_default, diroptions=self.diroptions_default
+        )
         args = super().parse_args(*args, **kwargs)
         self.parse_install_options()
         return args
